@@ -28,7 +28,7 @@ type Reply struct {
 	// Err, when set, is returned instead of a reply (fatal error injection)
 	Err error
 	// Bad makes ReceiveProbe return a retryable BadPacketError / no-match instead of a reply
-	Bad  int // 0 none, 1 BadPacketError, 2 ErrPacketDidNotMatchTraceroute
+	Bad  int // 0 none, 1 BadPacketError, 2 ErrPacketDidNotMatchTraceroute, 3 / 4 the same wrapped with %w
 	seq  int
 	used bool
 	due  time.Time
@@ -168,6 +168,16 @@ func (d *Driver) ReceiveProbe(timeout time.Duration) (*common.ProbeResponse, err
 				d.Events = append(d.Events, Event{Kind: "bad", At: at})
 				d.mu.Unlock()
 				return nil, common.ErrPacketDidNotMatchTraceroute
+			}
+			if r.Bad == 3 || r.Bad == 4 {
+				// the same two retryable classes with context added by an intermediate layer (%w), as the capture
+				// layers of some platforms and any driver that annotates its errors produce them
+				d.Events = append(d.Events, Event{Kind: "bad", At: at})
+				d.mu.Unlock()
+				if r.Bad == 3 {
+					return nil, fmt.Errorf("scripted driver: read: %w", &common.BadPacketError{Err: errors.New("scripted bad packet")})
+				}
+				return nil, fmt.Errorf("scripted driver: read: %w", common.ErrPacketDidNotMatchTraceroute)
 			}
 			rtt := time.Duration(0)
 			if s, ok := d.sends[r.TTL]; ok {
